@@ -588,6 +588,8 @@ class Interp:
                 return t is ast.NotEq
             acc = True
             for x, y in zip(a, b):
+                if self.resolve(x) is self.resolve(y):
+                    continue  # CPython's container comparison short-cuts on identity
                 e = self.compare(ast.Eq(), x, y)
                 acc = models.and_(acc, e)
             if t is ast.NotEq:
@@ -1196,6 +1198,11 @@ class Interp:
             return Opaque(f"{obj.origin}[...]")
         if isinstance(idx, slice) and is_symbolic([idx.start, idx.stop, idx.step]):
             return models.symbolic_slice(self, obj, idx)
+        if is_symbolic(idx) and isinstance(obj, dict) and _identity_key(idx):
+            try:
+                return obj[idx]  # keys that are (tuples of) symbolic objects: identity semantics
+            except KeyError as e:
+                raise PyRaise(e)
         if is_symbolic(idx):
             if isinstance(obj, list | tuple) and isinstance(idx, SV) and idx.kind == "int":
                 return models.select(self, obj, idx)
@@ -1222,7 +1229,7 @@ class Interp:
         obj = self.resolve(obj)
         if isinstance(obj, models.SMap):
             return obj.setitem(self, idx, v)
-        if is_symbolic(idx) and not (isinstance(obj, dict) and _isobj(idx)):
+        if is_symbolic(idx) and not (isinstance(obj, dict) and (_isobj(idx) or _identity_key(idx))):
             raise Unsupported("store at symbolic index")
         if isinstance(obj, list | dict):
             try:
@@ -1457,6 +1464,15 @@ class Interp:
 
 _MISSING = object()
 _REFLECT = {"__eq__": "__eq__", "__ne__": "__ne__", "__lt__": "__gt__", "__gt__": "__lt__", "__le__": "__ge__", "__ge__": "__le__"}
+
+
+def _identity_key(k):
+    """A dict key made of symbolic OBJECTS (no symbolic scalars): usable with identity semantics."""
+    if isinstance(k, SObj | SLazy):
+        return True
+    if isinstance(k, tuple):
+        return all(_identity_key(x) or not is_symbolic(x) for x in k) and any(is_symbolic(x) for x in k)
+    return False
 
 
 def _oname(so):
